@@ -1,7 +1,7 @@
 (* Dispatch.v -- single entry point of the executable model: opcode * argument -> result.
    Used identically by the extracted OCaml driver and by in-Coq vm_compute samples. *)
 From Coq Require Import List ZArith.
-From Yv Require Import Base.Sx Run.RunSym Run.RunGeom Run.RunCache Run.RunTrunc Run.RunStruct Run.RunBlock Run.RunFermi Run.RunFusion Run.RunSerial Run.RunLinalg Run.RunMps Run.RunCanon.
+From Yv Require Import Base.Sx Run.RunSym Run.RunGeom Run.RunCache Run.RunTrunc Run.RunStruct Run.RunBlock Run.RunFermi Run.RunFusion Run.RunSerial Run.RunLinalg Run.RunMps Run.RunCanon Run.RunKrylov.
 Import ListNotations.
 Open Scope Z_scope.
 
@@ -30,6 +30,11 @@ Definition run (op : Z) (arg : sx) : sx :=
   | 91 => run_t_con_qr arg
   | 100 => run_add2 arg
   | 110 => run_canon arg
+  | 120 => run_expand arg
+  | 121 => run_expmv_pass arg
+  | 122 => run_expmv_init arg
+  | 123 => run_expmv_ncv arg
+  | 124 => run_krylov_dims arg
   | _ => sErr 999
   end.
 
